@@ -66,9 +66,14 @@ def gen_engine_case(rng):
 
     suppress_scope = set()
     names_rule = named in ("rule", "bare", "multi")
+    why = rng.choice(["", "", f"  {cm} legacy code"])        # a further comment after the directive
     if k == "same":
         i = rng.randrange(n)
-        lines[i] += f"  {cm} {pre} ignore{rules_txt(True)}"
+        # (a third of the lines also carry another tool's comment with an `ignore[...]` of its own, before or after the directive)
+        foreign = rng.choice(["", "", "before", "after"])
+        tool = rng.choice(["type: ignore[arg-type]", "pyright: ignore[reportGeneralTypeIssues]", "type: ignore[" + rule + "]"])
+        mine = f"{cm} {pre} ignore{rules_txt(True)}"
+        lines[i] += "  " + (f"{cm} {tool}  {mine}" if foreign == "before" else f"{mine}  {cm} {tool}" if foreign == "after" else mine + why)
         suppress_scope = {i + 1}
     elif k == "next":
         i = rng.randrange(1, n)
@@ -77,7 +82,7 @@ def gen_engine_case(rng):
     elif k in ("block", "two-blocks", "unclosed"):
         a = rng.randrange(1, max(2, n - 3))
         b = rng.randrange(a + 1, n)
-        lines.insert(a, f"    {cm} {pre} ignore-start{rules_txt(False)}")
+        lines.insert(a, f"    {cm} {pre} ignore-start{rules_txt(rng.random() < 0.3)}{why}")
         if k != "unclosed":
             lines.insert(b + 1, f"{cm} {pre} ignore-end")
             suppress_scope = set(range(a + 2, b + 2))
@@ -90,7 +95,7 @@ def gen_engine_case(rng):
     elif k == "file":
         i = rng.choice([0, 1, 3, 8, 9, 10, 11, 15])
         i = min(i, len(lines))
-        lines.insert(i, f"{cm} {pre} ignore-file{rules_txt(True)}")
+        lines.insert(i, f"{cm} {pre} ignore-file{rules_txt(rng.random() < 0.7)}{why}")
         if i < 10:
             suppress_scope = set(range(1, len(lines) + 1))
     odd = False
